@@ -428,6 +428,10 @@ def run_check(pid, tier, seed, replay=None):
                     violations.append(("crash", f"hist={cr['case']} harness process died (rc={cr['rc']}) during: {cr['last_op']} :: {cr['output'][-400:]}", r, True))
             for wl in r["warns"]:
                 notes.append(wl)
+            unparsed = [wl for wl in r["warns"] if "unparsed" in wl]
+            if unparsed:
+                # a line of the implementation's trace the model driver does not understand: the tie is incomplete
+                violations.append(("correspondence", f"{len(unparsed)} trace line(s) not understood by the model driver, first: {unparsed[0][:200]}", r, False))
             if "lines" not in r["summary"]:
                 violations.append(("correspondence", "model driver did not complete on stream " + r["stream"], r, False))
         if not race_ok:
